@@ -277,11 +277,15 @@ func r10_1b(c *RC) {
 		// constructor: constant(s)
 		vals := map[int64]bool{}
 		allConst := true
-		for _, l := range Leaves(s.Val, nil) {
-			if k, ok := constInt(l); ok {
-				vals[k] = true
-			} else {
-				allConst = false
+		for _, l0 := range Leaves(s.Val, nil) {
+			// a protocol chosen by a small selector helper is the set of
+			// constants that helper returns
+			for _, l := range helperResultLeaves(p, l0) {
+				if k, ok := constInt(l); ok {
+					vals[k] = true
+				} else {
+					allConst = false
+				}
 			}
 		}
 		if !allConst {
@@ -455,6 +459,7 @@ func r10_1c(c *RC) {
 			case *ssa.Alloc:
 				// literal: collect protocol constants stored under it
 				vals := map[int64]bool{}
+				nonConst := false
 				instrs(x.Parent(), func(_ *ssa.BasicBlock, _ int, in ssa.Instruction) {
 					st, ok := in.(*ssa.Store)
 					if !ok {
@@ -492,14 +497,18 @@ func r10_1c(c *RC) {
 						}
 					})
 					if flows {
-						for _, l2 := range Leaves(st.Val, nil) {
-							if k, ok := constInt(l2); ok {
-								vals[k] = true
+						for _, l1 := range Leaves(st.Val, nil) {
+							for _, l2 := range helperResultLeaves(p, l1) {
+								if k, ok := constInt(l2); ok {
+									vals[k] = true
+								} else {
+									nonConst = true
+								}
 							}
 						}
 					}
 				})
-				if len(vals) == 0 {
+				if len(vals) == 0 || nonConst {
 					verdict = "cannot find the protocol of the literal"
 				} else if !subset(vals, allowed) {
 					verdict = "literal with protocol " + setStr(vals)
